@@ -242,11 +242,24 @@ func exec(op string) (string, string) {
 			tag = "g1rt+identity"
 		}
 		c := altbn128.G1Point{G1: g}.Compress()
-		d, err := altbn128.DecompressToG1(c)
-		if err != nil {
-			return "c=" + hex.EncodeToString(c) + " d=" + errClass(err), tag + "+rterr"
+		flags0 := ""
+		if c2 := (altbn128.G1Point{G1: g}).Compress(); !bytes.Equal(c, c2) {
+			flags0 += " NONDET"
 		}
-		return "c=" + hex.EncodeToString(c) + " d=" + hex.EncodeToString(d.Marshal()), tag
+		if !bytes.Equal(g.Marshal(), b) {
+			flags0 += " MUTATED-INPUT"
+		}
+		d, flags := discipline(c, func(buf []byte) string {
+			d, err := altbn128.DecompressToG1(buf)
+			if err != nil {
+				return errClass(err)
+			}
+			return hex.EncodeToString(d.Marshal())
+		})
+		if strings.HasPrefix(d, "err:") {
+			tag += "+rterr"
+		}
+		return "c=" + hex.EncodeToString(c) + " d=" + d + flags0 + flags, tag
 	case "g2":
 		b, ok := unhex(f[1], 128)
 		if !ok || len(f) != 2 {
@@ -261,31 +274,56 @@ func exec(op string) (string, string) {
 			tag = "g2rt+identity"
 		}
 		c := altbn128.G2Point{G2: g}.Compress()
-		d, err := altbn128.DecompressToG2(c)
-		if err != nil {
-			return "c=" + hex.EncodeToString(c) + " d=" + errClass(err), tag + "+rterr"
+		flags0 := ""
+		if c2 := (altbn128.G2Point{G2: g}).Compress(); !bytes.Equal(c, c2) {
+			flags0 += " NONDET"
 		}
-		return "c=" + hex.EncodeToString(c) + " d=" + hex.EncodeToString(d.Marshal()), tag
+		if !bytes.Equal(g.Marshal(), b) {
+			flags0 += " MUTATED-INPUT"
+		}
+		d, flags := discipline(c, func(buf []byte) string {
+			d, err := altbn128.DecompressToG2(buf)
+			if err != nil {
+				return errClass(err)
+			}
+			return hex.EncodeToString(d.Marshal())
+		})
+		if strings.HasPrefix(d, "err:") {
+			tag += "+rterr"
+		}
+		return "c=" + hex.EncodeToString(c) + " d=" + d + flags0 + flags, tag
 	case "d1":
 		b, ok := unhex(f[1], 32)
 		if !ok || len(f) != 2 {
 			return "bad-op", "bad"
 		}
-		d, err := altbn128.DecompressToG1(b)
-		if err != nil {
-			return errClass(err), "d1+" + errClass(err)[4:]
+		d, flags := discipline(b, func(buf []byte) string {
+			d, err := altbn128.DecompressToG1(buf)
+			if err != nil {
+				return errClass(err)
+			}
+			return hex.EncodeToString(d.Marshal())
+		})
+		if strings.HasPrefix(d, "err:") {
+			return d + flags, "d1+" + d[4:]
 		}
-		return hex.EncodeToString(d.Marshal()), "d1+point"
+		return d + flags, "d1+point"
 	case "d2":
 		b, ok := unhex(f[1], 64)
 		if !ok || len(f) != 2 {
 			return "bad-op", "bad"
 		}
-		d, err := altbn128.DecompressToG2(b)
-		if err != nil {
-			return errClass(err), "d2+" + errClass(err)[4:]
+		d, flags := discipline(b, func(buf []byte) string {
+			d, err := altbn128.DecompressToG2(buf)
+			if err != nil {
+				return errClass(err)
+			}
+			return hex.EncodeToString(d.Marshal())
+		})
+		if strings.HasPrefix(d, "err:") {
+			return d + flags, "d2+" + d[4:]
 		}
-		return hex.EncodeToString(d.Marshal()), "d2+point"
+		return d + flags, "d2+point"
 	case "hash":
 		if len(f) != 3 {
 			return "bad-op", "bad"
@@ -308,15 +346,14 @@ func exec(op string) (string, string) {
 		if strings.HasPrefix(string(m), "relay-entry-") {
 			tag = "hash+hard"
 		}
-		a := altbn128.G1HashToPoint(m)
-		b2 := altbn128.G1HashToPoint(append([]byte(nil), m...))
-		if a == nil || b2 == nil {
-			return "nil-point", tag
-		}
-		if !bytes.Equal(a.Marshal(), b2.Marshal()) {
-			return "nondeterministic " + hex.EncodeToString(a.Marshal()), tag
-		}
-		return hex.EncodeToString(a.Marshal()), tag
+		res, flags := discipline(m, func(buf []byte) string {
+			p := altbn128.G1HashToPoint(buf)
+			if p == nil {
+				return "nil-point"
+			}
+			return hex.EncodeToString(p.Marshal())
+		})
+		return res + flags, tag
 	case "fmul":
 		if len(f) != 5 {
 			return "bad-op", "bad"
